@@ -65,6 +65,13 @@ def replay_case(args):
         kw['model_shape'] = (rows[0]['mh'], rows[0]['mw'])
     if mapping:
         kw.update(x_name='x_0', y_name='y_0', params_map={'x_0': 'xx', 'y_0': 'yy', 'flux': 'ff'})
+        if idx % 2 == 0:
+            # columns that happen to be named after the model parameters (e.g. initial guesses next to the fitted columns):
+            # the explicit mapping decides which columns are rendered
+            t['x_0'] = [r['x4'] / 4.0 + 1.5 for r in rows]
+            t['y_0'] = [r['y4'] / 4.0 - 2.0 for r in rows]
+            t['flux'] = (fl * 0.5 + 1.0) * u.Jy if unitful else fl * 0.5 + 1.0
+            sig['decoy_columns'] = True
     if unitful:
         model = probe_model()
         model.flux = 1.0 * u.Jy
@@ -180,6 +187,13 @@ def psfphot_pairs(seed):
                                 {'max_abs_diff': float(np.max(np.abs(mi - ref)))}))
                 if not np.array_equal(ri, data - mi):
                     out.append(('residual_is_data_minus_model', dict(sig, call=j, include_localbkg=inc), {'max_abs_diff': float(np.max(np.abs(ri - (data - mi))))}))
+                # the same residual whatever container the data arrive in
+                import astropy.units as u
+                from astropy.nddata import NDData
+                rn = ph.make_residual_image(NDData(data), psf_shape=(9, 9), include_localbkg=inc)
+                if not np.array_equal(np.asarray(rn.data), data - mi):
+                    out.append(('residual_is_data_minus_model', dict(sig, call=j, include_localbkg=inc, container='NDData'),
+                                {'max_abs_diff': float(np.max(np.abs(np.asarray(rn.data) - (data - mi))))}))
     return out
 
 
